@@ -1161,6 +1161,19 @@ class Verifier:
             if isinstance(o2, SV) and isinstance(o2.t, ObjT) and s.value.attr in self.family(o2.t.family).fields:
                 st.env[s.targets[0].id] = MAlias(o2, s.value.attr)
                 return [Outcome(NORMAL, st)]
+        # x = outer[key]  /  x = outer[key] = {}  where the stored value is itself a dict: x aliases it
+        names_t = [t for t in s.targets if isinstance(t, ast.Name)]
+        subs_t = [t for t in s.targets if isinstance(t, ast.Subscript)]
+        src_sub = s.value if isinstance(s.value, ast.Subscript) and not isinstance(s.value.slice, ast.Slice) else None
+        if len(names_t) == 1 and len(s.targets) - 1 == len(subs_t) and (subs_t or src_sub is not None):
+            sub_expr = subs_t[0] if subs_t else src_sub
+            outer = self.ev(sub_expr.value, st)
+            if isinstance(outer, SV) and isinstance(outer.t, DictT) and isinstance(outer.t.v, DictT):
+                key = self.ev(sub_expr.slice, st)
+                if subs_t:
+                    self.bind_target(subs_t[0], val, st, s)
+                st.env[names_t[0].id] = MSubAlias(sub_expr.value, key, outer.t.v)
+                return [Outcome(NORMAL, st)]
         if len(s.targets) == 1 and isinstance(s.targets[0], ast.Name) and isinstance(s.value, ast.Call) \
                 and isinstance(s.value.func, ast.Attribute) and s.value.func.attr == 'setdefault' \
                 and isinstance(val, SV) and isinstance(val.t, DictT) and len(s.value.args) == 2:
